@@ -25,6 +25,17 @@ thread_local! {
     pub static QUIET_PANIC: Cell<bool> = const { Cell::new(false) };
 }
 
+/// A `with_time_source` scope with another clock that is left by a panic (caught here): whatever
+/// override was in force before must be in force again afterwards.
+pub fn time_source_scope_left_by_a_panic() {
+    use metrique_timesource::{TimeSource, fakes::ManuallyAdvancedTimeSource};
+    let decoy = ManuallyAdvancedTimeSource::at_time(std::time::UNIX_EPOCH + std::time::Duration::from_secs(55_000_000));
+    let prev = QUIET_PANIC.with(|q| q.replace(true));
+    let r = std::panic::catch_unwind(std::panic::AssertUnwindSafe(|| metrique_timesource::with_time_source(TimeSource::custom(decoy), || -> () { panic!("expected: the scope panics") })));
+    QUIET_PANIC.with(|q| q.set(prev));
+    assert!(r.is_err());
+}
+
 /// Runs `f` (real code) and turns a panic into Err(message) without printing anything.
 pub fn guarded<R>(f: impl FnOnce() -> R) -> Result<R, String> {
     QUIET_PANIC.with(|q| q.set(true));
